@@ -125,7 +125,11 @@ func genRefCase(t *rapid.T) RefCase {
 				f.Ops = append(f.Ops, op)
 			}
 		}
-		switch rapid.IntRange(0, 7).Draw(t, "end") {
+		endRange := 7
+		if i == 0 {
+			endRange = 19 // the entry frame fails less often: a failing transaction exercises little
+		}
+		switch rapid.IntRange(0, endRange).Draw(t, "end") {
 		case 0, 1:
 			f.Ops = append(f.Ops, evmasm.Op{Kind: "revert"})
 		case 2:
@@ -135,6 +139,89 @@ func genRefCase(t *rapid.T) RefCase {
 		}
 		c.Prog.Frames = append(c.Prog.Frames, f)
 		c.Fund = append(c.Fund, rapid.SampledFrom([]string{"0", "0", "1", "100", "3000000000000000000"}).Draw(t, "fund"))
+	}
+	// second entry points: a frame may be re-entered (from any depth, also by itself or by a later frame) with another body
+	for i := 0; i < nf; i++ {
+		if rapid.IntRange(0, 2).Draw(t, "alt") != 0 {
+			continue
+		}
+		na := rapid.IntRange(1, 3).Draw(t, "nalt")
+		for j := 0; j < na; j++ {
+			switch rapid.SampledFrom([]string{"sstore", "sstore", "send", "log", "selfdestruct", "revert"}).Draw(t, "altkind") {
+			case "sstore":
+				c.Prog.Frames[i].Alt = append(c.Prog.Frames[i].Alt, evmasm.Op{Kind: "sstore", Key: uint64(rapid.IntRange(0, 3).Draw(t, "akey")), Val: uint64(rapid.IntRange(0, 2).Draw(t, "aval"))})
+			case "send":
+				c.Prog.Frames[i].Alt = append(c.Prog.Frames[i].Alt, evmasm.Op{Kind: "send", Target: rapid.SampledFrom(refTargets(i)).Draw(t, "asendto"), Value: rapid.SampledFrom(values).Draw(t, "asendv"), NoRecord: rapid.Bool().Draw(t, "anorec")})
+			case "log":
+				c.Prog.Frames[i].Alt = append(c.Prog.Frames[i].Alt, evmasm.Op{Kind: "log", Key: uint64(100 + 10*i + j)})
+			case "selfdestruct":
+				c.Prog.Frames[i].Alt = append(c.Prog.Frames[i].Alt, evmasm.Op{Kind: "selfdestruct", Target: rapid.SampledFrom(refTargets(i)).Draw(t, "aheir")})
+				j = na
+			case "revert":
+				c.Prog.Frames[i].Alt = append(c.Prog.Frames[i].Alt, evmasm.Op{Kind: "revert"})
+				j = na
+			}
+		}
+		// somebody calls it: a random position in a random frame's main body
+		from := rapid.IntRange(0, nf-1).Draw(t, "alt-from")
+		call := evmasm.Op{Kind: "call", Child: i, Alt: true, CallOp: rapid.SampledFrom([]string{"CALL", "CALL", "DELEGATECALL", "STATICCALL"}).Draw(t, "alt-callop"),
+			Value: rapid.SampledFrom([]string{"0", "0", "1"}).Draw(t, "alt-value"), NoRecord: rapid.Bool().Draw(t, "alt-norec")}
+		ops := c.Prog.Frames[from].Ops
+		at := rapid.IntRange(0, len(ops)).Draw(t, "alt-at")
+		if at < len(ops) {
+			switch ops[len(ops)-1].Kind {
+			case "revert", "invalid", "selfdestruct":
+				if at == len(ops) {
+					at--
+				}
+			}
+		} else if len(ops) > 0 {
+			switch ops[len(ops)-1].Kind {
+			case "revert", "invalid", "selfdestruct":
+				at = len(ops) - 1
+			}
+		}
+		c.Prog.Frames[from].Ops = append(append(append([]evmasm.Op{}, ops[:at]...), call), ops[at:]...)
+	}
+	if nf >= 2 && rapid.IntRange(0, 2).Draw(t, "reentry-scenario") == 0 {
+		// P does something that survives, calls Q (possibly handing over its whole balance); Q re-enters P through P's
+		// second entry point (which writes, sends or self-destructs) and then fails or not; P carries on
+		pI := rapid.IntRange(0, nf-2).Draw(t, "re-p")
+		qI := rapid.IntRange(pI+1, nf-1).Draw(t, "re-q")
+		var alt []evmasm.Op
+		if rapid.Bool().Draw(t, "re-alt-writes") {
+			alt = append(alt, evmasm.Op{Kind: "sstore", Key: uint64(rapid.IntRange(0, 3).Draw(t, "re-ak")), Val: uint64(rapid.IntRange(0, 2).Draw(t, "re-av"))})
+		}
+		switch rapid.IntRange(0, 3).Draw(t, "re-alt-end") {
+		case 0, 1:
+			alt = append(alt, evmasm.Op{Kind: "selfdestruct", Target: rapid.SampledFrom(refTargets(pI)).Draw(t, "re-heir")})
+		case 2:
+			alt = append(alt, evmasm.Op{Kind: "send", Target: rapid.SampledFrom(refTargets(pI)).Draw(t, "re-to"), Value: "1", NoRecord: true})
+		}
+		if len(alt) == 0 {
+			alt = []evmasm.Op{{Kind: "log", Key: 7}}
+		}
+		c.Prog.Frames[pI].Alt = alt
+		q := []evmasm.Op{{Kind: "call", Child: pI, Alt: true, CallOp: rapid.SampledFrom([]string{"CALL", "CALL", "DELEGATECALL"}).Draw(t, "re-callop"), Value: "0", NoRecord: rapid.Bool().Draw(t, "re-qnorec")}}
+		if rapid.Bool().Draw(t, "re-q-writes") {
+			q = append(q, evmasm.Op{Kind: "sstore", Key: 1, Val: 2})
+		}
+		switch rapid.IntRange(0, 3).Draw(t, "re-q-end") {
+		case 0, 1:
+			q = append(q, evmasm.Op{Kind: "revert"})
+		case 2:
+			q = append(q, evmasm.Op{Kind: "invalid"})
+		}
+		c.Prog.Frames[qI].Ops = q
+		var pOps []evmasm.Op
+		if rapid.Bool().Draw(t, "re-p-writes") {
+			pOps = append(pOps, evmasm.Op{Kind: "sstore", Key: uint64(rapid.IntRange(0, 3).Draw(t, "re-pk")), Val: 1})
+		}
+		pOps = append(pOps, evmasm.Op{Kind: "call", Child: qI, CallOp: "CALL", Value: rapid.SampledFrom([]string{"0", "1"}).Draw(t, "re-pv"), ValueAll: rapid.Bool().Draw(t, "re-pall"), NoRecord: rapid.Bool().Draw(t, "re-pnorec")})
+		if rapid.Bool().Draw(t, "re-p-after") {
+			pOps = append(pOps, evmasm.Op{Kind: "sstore", Key: 3, Val: 2})
+		}
+		c.Prog.Frames[pI].Ops = pOps
 	}
 	if withQueries && nf >= 2 && rapid.IntRange(0, 1).Draw(t, "flush-scenario") == 0 {
 		// a frame writes, calls a read-only precompile (which flushes the StateDB), writes again and fails; its parent
@@ -195,7 +282,7 @@ func runRef(c RefCase, class func(string)) (discs []refDisc, nontrivial bool) {
 		if amt := bigOf(c.Fund[i]); amt.Sign() > 0 {
 			must(app.BankKeeper.SendCoins(n.Ctx(), refFunder.Addr, sdk.AccAddress(evmasm.FrameAddr(i).Bytes()), sdk.NewCoins(sdk.NewCoin(chain.Denom, sdkInt(amt)))))
 		}
-		for _, op := range c.Prog.Frames[i].Ops {
+		for _, op := range append(append([]evmasm.Op{}, c.Prog.Frames[i].Ops...), c.Prog.Frames[i].Alt...) {
 			hasPre = hasPre || op.Kind == "pre"
 		}
 	}
@@ -207,6 +294,9 @@ func runRef(c RefCase, class func(string)) (discs []refDisc, nontrivial bool) {
 	for i, f := range c.Prog.Frames {
 		for j := range f.Ops {
 			slots = append(slots, evmasm.ResultSlot(i, j))
+		}
+		for j := range f.Alt {
+			slots = append(slots, evmasm.ResultSlot(i, evmasm.AltBase+j))
 		}
 	}
 	watched := []common.Address{refSigner.Hex, refThird.Hex, refFresh1, refFresh2}
